@@ -308,3 +308,41 @@ def r_C31d_C29f(root):
         ob("C29", "C29.f", E, "html_escape", "%r -> %r" % (sample, got), ok)
         if not ok: out.append(Finding("C29", "C29.f", E, "html_escape", "html_escape(%r)" % sample, "yields %r, html.escape gives %r: markup characters of match-rule texts reach the HTML-like label unescaped" % (got, _html.escape(sample)), witness="Arrow: '->' | '=>';"))
     return inst, out
+
+def r_signals(root):
+    """C31.e  the clean-up of a partially written output file runs in an `except BaseException` handler: it relies on Ctrl-C
+    arriving as KeyboardInterrupt.  No module of the package changes a signal disposition (signal.signal, signal.set_wakeup_fd,
+    signal.pthread_sigmask ...) or leaves the process abruptly (os._exit, os.abort).  Expected count on this tree: 0; a
+    built-in fixture keeps the rule honest."""
+    import ast, os
+    out = []; inst = 0
+    BAD = {"signal": {"signal", "set_wakeup_fd", "pthread_sigmask", "siginterrupt", "setitimer", "alarm"}, "os": {"_exit", "abort", "kill", "killpg"}}
+    def scan(tree):
+        res = []; alias = {}
+        for n in ast.walk(tree):
+            if isinstance(n, ast.Import):
+                for a in n.names:
+                    if a.name in BAD: alias[a.asname or a.name] = a.name
+            if isinstance(n, ast.ImportFrom) and n.module in BAD:
+                for a in n.names:
+                    if a.name in BAD[n.module]: alias[a.asname or a.name] = (n.module, a.name)
+        for n in ast.walk(tree):
+            if isinstance(n, ast.Call):
+                f = n.func
+                if isinstance(f, ast.Attribute) and isinstance(f.value, ast.Name) and isinstance(alias.get(f.value.id), str) and f.attr in BAD[alias[f.value.id]]: res.append((n, "%s.%s" % (alias[f.value.id], f.attr)))
+                if isinstance(f, ast.Name) and isinstance(alias.get(f.id), tuple): res.append((n, "%s.%s" % alias[f.id]))
+        return res
+    fx = ast.parse("import signal, os as o\nfrom signal import signal as s\ndef main():\n    signal.signal(signal.SIGINT, signal.SIG_DFL)\n    s(2, None)\n    o._exit(1)\n    o.getcwd()\n")
+    if sorted(w for _n, w in scan(fx)) != ["os._exit", "signal.signal", "signal.signal"]: raise AnalysisError("signal rule: the built-in positive example is classified %s" % [w for _n, w in scan(fx)])
+    for dp, dn, fnames in os.walk(os.path.join(root, "textx")):
+        dn[:] = [d for d in dn if d != "__pycache__"]
+        for fname in sorted(fnames):
+            if not fname.endswith(".py"): continue
+            rel = os.path.relpath(os.path.join(dp, fname), root); t = load(root, rel); inst += 1
+            for n, what in scan(t):
+                inst += 1
+                for pr in ("C31", "C30"):
+                    ob(pr, "C31.e", rel, qualname(n) or "module level", " ".join(ast.unparse(n).split())[:80], False)
+                    out.append(Finding(pr, "C31.e", rel, qualname(n) or "module level", " ".join(ast.unparse(n).split())[:90], "%s changes how the process reacts to signals / ends: an interrupted generator run no longer raises KeyboardInterrupt through gen_file, whose handler removes the partially written output file - the next run skips the truncated file as already generated" % what, witness="textx generate ... --target X, Ctrl-C while the generator is writing"))
+    for pr in ("C31", "C30"): ob(pr, "C31.e", "textx/", "package", "no module changes a signal disposition or exits abruptly (%d files)" % inst, not out)
+    return max(inst, 1), out
